@@ -649,8 +649,15 @@ pub fn eval_solve<VS: HSet>(r: &SolveReq<VS>) -> SolveEval<VS> {
     let req = req_line(r, &answers);
     let mut failures: Vec<(&'static str, String)> = vec![];
     let mut tags: Vec<&'static str> = vec![];
-    let sels = all_selections(&r.reg);
+    // brute force over all selections, unless the registry is too large for it (then the oracles that
+    // need all solutions are skipped for this request and the request only serves the exact mirror)
+    let space: u64 = r.reg.packages().iter().map(|p| r.reg.versions(p).len() as u64 + 1).product();
+    let brute = space <= 4_000;
+    let sels = if brute { all_selections(&r.reg) } else { vec![] };
     let solutions: Vec<&Sel> = sels.iter().filter(|s| is_solution(&r.reg, &r.root, r.rv, s).is_ok()).collect();
+    if !brute {
+        tags.push("too_large_for_brute_force");
+    }
     let faulty = r.fault != Fault::None;
 
     // ---- trace facts
@@ -800,7 +807,7 @@ pub fn eval_solve<VS: HSet>(r: &SolveReq<VS>) -> SolveEval<VS> {
         }
         Outcome::NoSolution(tree) => {
             tags.push("outcome_nosolution");
-            if let Some(s) = solutions.first() {
+            if let Some(s) = solutions.first().filter(|_| brute) {
                 failures.push(("C02", format!("NoSolution reported but {:?} is a solution", s)));
             }
             // C03: the tree is a checkable proof (independent semantic check against the registry)
@@ -1002,6 +1009,39 @@ pub fn layered_registry<VS: HSet>(rng: &mut Rng, versions: &[u32]) -> Registry<V
             }
             if rng.chance(1, 6) {
                 ds.push((layers[rng.below(depth as u64) as usize].to_string(), VS::family(rng)));
+            }
+            entries.insert((p.to_string(), v), Ok(ds));
+        }
+    }
+    Registry { entries }
+}
+
+/// larger registries (6-9 packages, up to 4 versions, denser dependencies): deeper conflict chains and
+/// incompatibilities with three and more terms; mostly beyond brute force, they serve the exact mirror,
+/// the tree oracles and the trace oracles
+pub fn big_registry<VS: HSet>(rng: &mut Rng, versions: &[u32]) -> Registry<VS> {
+    let names = ["root", "a", "b", "c", "d", "e", "f", "g", "h"];
+    let n = 6 + rng.below(4) as usize;
+    let mut entries = BTreeMap::new();
+    for (pi, p) in names.iter().take(n).enumerate() {
+        let mut vs: Vec<u32> = versions.to_vec();
+        let nv = if pi == 0 { 1 } else { 1 + rng.below(vs.len() as u64) as usize };
+        while vs.len() > nv {
+            let i = rng.below(vs.len() as u64) as usize;
+            vs.remove(i);
+        }
+        for v in vs {
+            if rng.chance(1, 25) {
+                entries.insert((p.to_string(), v), Err("nodeps".to_string()));
+                continue;
+            }
+            let nd = if pi == 0 { 2 + rng.below(3) } else { rng.below(4) } as usize;
+            let mut ds = vec![];
+            for _ in 0..nd {
+                // mostly "forward" dependencies so that many packages get pulled in, some backward ones (cycles)
+                let q = if rng.chance(4, 5) { names[(pi + 1 + rng.below((n - 1) as u64) as usize) % n] } else { names[rng.below(n as u64) as usize] };
+                let set = if rng.chance(1, 2) { VS::full() } else { VS::family(rng) };
+                ds.push((q.to_string(), set));
             }
             entries.insert((p.to_string(), v), Ok(ds));
         }
